@@ -30,7 +30,7 @@ def units(tier):
     return bulkrp.units() + [u for u in segprims.annotator_units() if "Regionprops" in u.name] + primitives.units(SEGP) + useractions.units(UA_ALL, SEG)
 
 
-def bounded(tier, seed):
+def _bounded(tier, seed):
     from pyvc.native_bridge import bounded_harness, bounded_paint
     return [bounded_harness(tier, "C08", "area-and-centroid-oracle", "area = pixel count x voxel size and pos = scaled centroid for every node after "
                             "every edit/undo/redo and after construction (bulk path)", seed, segonly=True),
@@ -40,3 +40,8 @@ def bounded(tier, seed):
 def witness(label, failure, seed):
     from pyvc.native_bridge import tracks_witness
     return tracks_witness("C08", label, failure, seed, extra=["--segonly"])
+
+
+def bounded(tier, seed):
+    from ._common import model_checks
+    return _bounded(tier, seed) + model_checks(tier, "networkx,regionprops", shape=True, seed=seed)
